@@ -17,6 +17,10 @@ type Scenario struct {
 	Horizon int
 	// AllowDeadlock: the scenario's oracle handles deadlock outcomes itself.
 	AllowDeadlock bool
+	// StateCaching prunes states (identified by their happens-before hash, see HB) that were already expanded with at
+	// least the remaining preemption budget. Only sound when the oracle does not depend on the order of independent
+	// operations and every shim the scenario touches maintains HB cells.
+	StateCaching bool
 }
 
 type Stats struct {
@@ -29,6 +33,8 @@ type Stats struct {
 	HorizonHits  int64
 	MaxThreads   int
 	SampleTrace  []string
+	States       int64 // distinct global states expanded (state caching only)
+	Pruned       int64 // decision points skipped because their state was already expanded
 }
 
 func (sc *Scenario) horizon() int {
@@ -41,7 +47,7 @@ func (sc *Scenario) horizon() int {
 // Execute runs one schedule and evaluates the oracle.
 func (sc *Scenario) Execute(prefix []int, trace bool) (*Result, string, *core.Violation) {
 	main, check := sc.New()
-	res, err := RunOnce(main, prefix, sc.horizon(), trace)
+	res, err := RunOnce(main, prefix, sc.horizon(), trace, sc.StateCaching)
 	if err != nil {
 		core.Fatalf("%s: %v (prefix %v)", sc.Name, err, prefix)
 	}
@@ -81,6 +87,7 @@ func Explore(run *core.Run, sc *Scenario, bound int) Stats {
 	sc.SelfTest()
 	var rec func(prefix []int, costSoFar int)
 	stop := false
+	seen := map[HB]int{}
 	rec = func(prefix []int, costSoFar int) {
 		if stop {
 			return
@@ -112,6 +119,20 @@ func Explore(run *core.Run, sc *Scenario, bound int) Stats {
 		cost := costSoFar
 		for i := len(prefix); i < len(res.Points); i++ {
 			p := res.Points[i]
+			if sc.StateCaching {
+				remaining := 1 << 20
+				if bound >= 0 {
+					remaining = bound - cost
+				}
+				if had, ok := seen[res.Keys[i]]; ok && had >= remaining {
+					st.Pruned++
+					break // this state and everything below it was (or will be) expanded by its owner
+				}
+				if _, ok := seen[res.Keys[i]]; !ok {
+					st.States++
+				}
+				seen[res.Keys[i]] = remaining
+			}
 			for alt := 1; alt < p.N; alt++ {
 				c := cost + res.costOf(i, alt)
 				if bound >= 0 && c > bound {
